@@ -106,6 +106,15 @@ Proof.
   destruct (N.eqb_spec k n); [intros H; injection H as -> ->; left; subst; reflexivity|intros H; right; apply IH, H].
 Qed.
 
+(* ---------- what [resolve_h] says when a revision is appended ---------- *)
+Lemma resolve_h_newest h r id m :
+  rev_mention r (fst id) = Some m ->
+  resolve_h (h ++ [r]) id = match m with Some (g, v) => if N.eqb g (snd id) then Some v else None | None => None end.
+Proof. intros M. unfold resolve_h. rewrite rev_app_distr. cbn [rev app mention_h]. rewrite M. destruct m as [[g v]|]; reflexivity. Qed.
+
+Lemma resolve_h_older h r id : rev_mention r (fst id) = None -> resolve_h (h ++ [r]) id = resolve_h h id.
+Proof. intros M. unfold resolve_h. rewrite rev_app_distr. cbn [rev app mention_h]. rewrite M. reflexivity. Qed.
+
 Section Hist.
   Variables (rel : bool) (h : history) (L : hlayout) (prev0 : option N).
   Hypothesis Wh : wf_history h.
